@@ -731,7 +731,7 @@ func (in *Interp) accessSite() (string, bool) {
 		return "", false
 	}
 	top := th.frames[len(th.frames)-1]
-	if isHarnessFnCached(in, top.fn) {
+	if isHarnessFnCached(in, top.fn) && !in.forceLibSite {
 		return "", false
 	}
 	// attribute to the innermost go9p (non-harness) frame
@@ -739,6 +739,9 @@ func (in *Interp) accessSite() (string, bool) {
 		f := th.frames[i]
 		if f.fn.Pkg == in.p.pkg {
 			if isHarnessFnCached(in, f.fn) {
+				if in.forceLibSite {
+					continue
+				}
 				return "", false
 			}
 			return in.frameWhere(f), true
@@ -754,6 +757,13 @@ func isHarnessFnCached(in *Interp, fn *ssa.Function) bool {
 	v := isHarnessFn(in.p, fn)
 	in.harnessFn[fn] = v
 	return v
+}
+
+// raceAccessAs: an access performed by harness code on behalf of the innermost library frame.
+func (in *Interp) raceAccessAs(o *Object, off, n int, write bool) {
+	in.forceLibSite = true
+	in.raceAccess(o, off, n, write)
+	in.forceLibSite = false
 }
 
 func (in *Interp) raceAccess(o *Object, off, n int, write bool) {
